@@ -165,6 +165,64 @@ Section Cmp.
     flag_cmp infer nat_less Fnf a b = -1.
   Proof. intros Ha -> Hb Hne. cbn [flag_cmp]. unfold num_cmp. rewrite Ha, Hb. destruct b; [congruence|reflexivity]. Qed.
 
+  (* descending flags are the ascending comparators with the arguments exchanged (the natural pair included) *)
+  Lemma descending_is_flipped a b :
+    flag_cmp infer nat_less Fr a b = flag_cmp infer nat_less Ff b a
+    /\ flag_cmp infer nat_less Fcr a b = flag_cmp infer nat_less Fc b a
+    /\ (num_dom a -> num_dom b -> flag_cmp infer nat_less Fnr a b = flag_cmp infer nat_less Fnf b a)
+    /\ flag_cmp infer nat_less Ftr a b = flag_cmp infer nat_less Ft b a.
+  Proof.
+    repeat split; try reflexivity. intros Ha Hb. cbn [flag_cmp].
+    destruct numeric_total_preorder as [(_ & Hs & _) _]. cbn [flag_cmp] in Hs. rewrite (Hs b a Hb Ha). lia.
+  Qed.
+
+  (* the sort.Slice callback over several keys: a total preorder on value tuples whenever each key's comparator is one *)
+  Lemma chain_preorder (D : bytes -> Prop) fl :
+    (forall f, In f fl -> total_preorder_on D (flag_cmp infer nat_less f)) ->
+    total_preorder_on (fun l => List.length l = List.length fl /\ Forall D l) (chain_cmp infer nat_less fl).
+  Proof.
+    induction fl as [|f fl IH]; intros Hf.
+    - split; [|split]; intros; destruct a; reflexivity || (cbn; lia).
+    - assert (Hc : total_preorder_on D (flag_cmp infer nat_less f)) by (apply Hf; cbn; auto).
+      specialize (IH (fun g Hg => Hf g (or_intror Hg))).
+      destruct Hc as (Cr & Cs & Ct). destruct IH as (Ir & Is & It).
+      split; [|split].
+      + intros [|x a] [Hl Hd]; [discriminate|]. inversion Hd as [|? ? Hx Ha]; subst. cbn [chain_cmp]. cbn zeta.
+        rewrite (Cr x Hx). cbn. apply Ir. cbn in Hl. split; [lia|assumption].
+      + intros [|x a] [|y b] [Hl1 Hd1] [Hl2 Hd2]; try discriminate.
+        inversion Hd1 as [|? ? Hx Ha]; subst. inversion Hd2 as [|? ? Hy Hb]; subst. cbn [chain_cmp]. cbn zeta.
+        rewrite (Cs x y Hx Hy). cbn in Hl1, Hl2.
+        destruct (Z.ltb_spec (- flag_cmp infer nat_less f y x) 0), (Z.ltb_spec 0 (- flag_cmp infer nat_less f y x)),
+                 (Z.ltb_spec (flag_cmp infer nat_less f y x) 0), (Z.ltb_spec 0 (flag_cmp infer nat_less f y x)); try lia.
+        apply Is; split; auto; lia.
+      + intros [|x a] [|y b] [|z c] [Hl1 Hd1] [Hl2 Hd2] [Hl3 Hd3]; try discriminate.
+        inversion Hd1 as [|? ? Hx Ha]; subst. inversion Hd2 as [|? ? Hy Hb]; subst. inversion Hd3 as [|? ? Hz Hc]; subst.
+        cbn [chain_cmp]. cbn zeta. cbn in Hl1, Hl2, Hl3.
+        pose proof (Cs x y Hx Hy) as Sxy. pose proof (Cs y z Hy Hz) as Syz. pose proof (Cs x z Hx Hz) as Sxz.
+        pose proof (Ct x y z Hx Hy Hz) as Txyz. pose proof (Ct z y x Hz Hy Hx) as Tzyx.
+        pose proof (Ct y z x Hy Hz Hx) as Tyzx. pose proof (Ct z x y Hz Hx Hy) as Tzxy.
+        pose proof (Cs z y Hz Hy) as Szy. pose proof (Cs y x Hy Hx) as Syx. pose proof (Cs z x Hz Hx) as Szx.
+        destruct (Z.ltb_spec (flag_cmp infer nat_less f x y) 0), (Z.ltb_spec 0 (flag_cmp infer nat_less f x y)),
+                 (Z.ltb_spec (flag_cmp infer nat_less f y z) 0), (Z.ltb_spec 0 (flag_cmp infer nat_less f y z)),
+                 (Z.ltb_spec (flag_cmp infer nat_less f x z) 0), (Z.ltb_spec 0 (flag_cmp infer nat_less f x z)); try lia.
+        apply It; split; auto; lia.
+  Qed.
+
+  Lemma std_flag_preorder f : In f [Ff; Fr; Fc; Fcr; Fnf; Fnr] -> total_preorder_on num_dom (flag_cmp infer nat_less f).
+  Proof.
+    intros Hin. cbn in Hin.
+    destruct Hin as [<-|[<-|[<-|[<-|[<-|[<-|[]]]]]]].
+    - apply (total_preorder_weaken (fun _ => True)); [auto|apply lexical_total_preorder].
+    - apply (total_preorder_weaken (fun _ => True)); [auto|apply lexical_total_preorder].
+    - apply (total_preorder_weaken (fun _ => True)); [auto|apply casefold_total_preorder].
+    - apply (total_preorder_weaken (fun _ => True)); [auto|apply casefold_total_preorder].
+    - apply numeric_total_preorder.
+    - apply numeric_total_preorder.
+  Qed.
+  Lemma std_chain_preorder fl : (forall f, In f fl -> In f [Ff; Fr; Fc; Fcr; Fnf; Fnr]) ->
+    total_preorder_on (fun l => List.length l = List.length fl /\ Forall num_dom l) (chain_cmp infer nat_less fl).
+  Proof. intros H. apply chain_preorder. intros f Hf. apply std_flag_preorder. auto. Qed.
+
   (* ================================================================ the sort checker *)
   Lemma ordered_by_spec {A} (lt : A -> A -> bool) l :
     ordered_by lt l = true <-> ForallOrdPairs (fun x y => lt y x = false) l.
@@ -225,6 +283,53 @@ Section Cmp.
       + apply Nat.eqb_eq in H2. lia.
       + intros g Hg. rewrite forallb_forall in H3. apply mem_In. auto.
     - destruct (records_eqb_spec out (sort_output ks inp (dkeys (sort_keyf ks) out))); congruence.
+    - now apply ordered_by_spec.
+  Qed.
+
+  (* completeness: every output allowed by the specification is accepted by the checker *)
+  Lemma dkeys_same_key_prefix keyf g xs rest : xs <> [] -> (forall r, In r xs -> keyf r = Some g) ->
+    dkeys keyf (xs ++ rest) = g :: filter (fun x => negb (beqb x g)) (dkeys keyf rest).
+  Proof.
+    induction xs as [|r t IH]; [congruence|]. intros _ Hk. cbn [app dkeys]. rewrite (Hk r (or_introl eq_refl)).
+    destruct t as [|r' t'].
+    - reflexivity.
+    - rewrite IH by (congruence || (intros x Hx; apply Hk; cbn; auto)). cbn [filter]. rewrite beqb_refl. cbn [negb].
+      f_equal. apply filter_filter_imp. auto.
+  Qed.
+  Lemma dkeys_keyless keyf l : (forall r, In r l -> keyf r = None) -> dkeys keyf l = [].
+  Proof.
+    induction l as [|r t IH]; intros H; [reflexivity|]. cbn [dkeys]. rewrite (H r (or_introl eq_refl)). apply IH.
+    intros x Hx. apply H. cbn. auto.
+  Qed.
+  Lemma dkeys_flat_groups keyf inp gs tail : NoDup gs -> (forall g, In g gs -> In g (dkeys keyf inp)) ->
+    (forall r, In r tail -> keyf r = None) ->
+    dkeys keyf (flat_map (fun g => group_of keyf g inp) gs ++ tail) = gs.
+  Proof.
+    induction 1 as [|g gs Hni Hnd IH]; intros Hin Ht.
+    - cbn. now apply dkeys_keyless.
+    - cbn [flat_map]. rewrite <- app_assoc. rewrite (dkeys_same_key_prefix keyf g).
+      + rewrite IH by (auto; intros x Hx; apply Hin; cbn; auto). f_equal. apply filter_true.
+        intros x Hx. rewrite negb_true_iff. apply beqb_false_iff. congruence.
+      + destruct (dkeys_sound keyf g inp (Hin g (or_introl eq_refl))) as (r & Hr & Hk).
+        intros E. assert (Hg : In r (group_of keyf g inp)).
+        { unfold group_of. apply filter_In. split; [assumption|]. rewrite Hk. cbn. apply beqb_refl. }
+        rewrite E in Hg. destruct Hg.
+      + intros r Hr. eapply group_of_key; eauto.
+  Qed.
+
+  Lemma check_sort_complete ks inp out : sort_spec ks inp out -> check_sort infer nat_less ks inp out = true.
+  Proof.
+    intros (gs & Hp & -> & Ho). unfold check_sort. cbn zeta.
+    assert (Hnd : NoDup gs) by (eapply Permutation_NoDup; [symmetry; exact Hp|apply dkeys_NoDup]).
+    assert (Hd : dkeys (sort_keyf ks) (sort_output ks inp gs) = gs).
+    { unfold sort_output. apply dkeys_flat_groups; [assumption| |].
+      - intros g Hg. eapply Permutation_in; eauto.
+      - intros r Hr. unfold spill in Hr. apply filter_In in Hr. destruct Hr as [_ Hr]. unfold has_key in Hr.
+        destruct (sort_keyf ks r); [discriminate|reflexivity]. }
+    rewrite Hd. rewrite !andb_true_iff. repeat split.
+    - destruct (records_eqb_spec (sort_output ks inp gs) (sort_output ks inp gs)); congruence.
+    - apply Nat.eqb_eq. now apply Permutation_length.
+    - apply forallb_forall. intros g Hg. apply mem_In. eapply Permutation_in; [symmetry; exact Hp|exact Hg].
     - now apply ordered_by_spec.
   Qed.
 
